@@ -282,6 +282,24 @@ def pool_part(chk, rng, thorough, wd, invariants, scenarios=None, big=True):
                               f"CountExact of Pool.tla require ok, 0 and all of them)",
                               dict(engine="pool", big=dict(nw=nw, leaves=leaves, rounds=rounds), outcome=e),
                               signature=f"poolbig:{nw}:{e['r']}")
+        # several rings of tasks hopping concurrently: two wake-ups per poll on several workers at once
+        for nw, rings, ln, hops, rounds in (((3, 2, 5, 200, 3000), (4, 3, 5, 200, 3000), (8, 6, 4, 200, 2000), (16, 12, 4, 100, 1000))
+                                           if thorough else ((3, 2, 5, 200, 1500), (4, 3, 5, 200, 1500))):
+            lines, rc, err = harness(dict(nw=nw, rings=dict(rings=rings, len=ln, hops=hops, rounds=rounds)), wd,
+                                     f"pool_rings_{nw}", timeout=900)
+            chk.evaluations += rounds
+            bad = [e for e in lines if e.get("ev") == "ret" and (e["r"] != "ok" or e.get("left", 0) != 0)]
+            if rc != 0 and not bad:
+                what = "did not return (watchdog)" if rc == 3 else f"died ({rc}: {err})"
+                chk.violation(f"{rings} rings of wake-ups on {nw} workers: run() {what}",
+                              dict(engine="pool", rings=dict(nw=nw, rings=rings, len=ln, hops=hops, rounds=rounds),
+                                   lines=lines[-5:]), signature=f"poolrings:hang:{nw}")
+            for e in bad[:1]:
+                chk.violation(f"{rings} rings of wake-ups on {nw} workers, round {e['k']}: run() returned {e['r']}({e['n']}) "
+                              f"with {e.get('left')} hops not executed although no task panics and every woken task is "
+                              f"runnable (Pool.tla: run() returns ok once nothing is queued)",
+                              dict(engine="pool", rings=dict(nw=nw, rings=rings, len=ln, hops=hops, rounds=rounds), outcome=e),
+                              signature=f"poolrings:{nw}:{e['r']}")
 
 
 if __name__ == "__main__":
